@@ -146,8 +146,8 @@ func runCase(c *Case) []vtrace.Rec {
 	if hung {
 		e.emit("Hang", vtrace.Rec{})
 	}
-	e.emit("End", vtrace.Rec{})
-	e.mu.Lock()
+	e.mu.Lock() // End and "closed" in one critical section: nothing is recorded behind End
+	e.lines = append(e.lines, vtrace.Rec{"ev": "End"})
 	e.closed = true
 	lines := e.lines
 	e.mu.Unlock()
